@@ -19,15 +19,22 @@ impl Transport for UdpTransport {
     }
 }
 
+#[cfg(not(feature = "verif"))]
+type RawUdpSocket = tokio::net::UdpSocket;
+// With the `verif` feature, the raw socket is the real one unless a simulator installed a
+// factory on this thread (see `verif::set_udp_factory`).
+#[cfg(feature = "verif")]
+type RawUdpSocket = crate::verif::RawUdpSocket;
+
 pub struct UdpSocket {
     buf_send: Vec<u8>,
     buf_recv: Box<[u8; MAX_UDP_DATAGRAM_PAYLOAD_SIZE]>,
-    socket: tokio::net::UdpSocket,
+    socket: RawUdpSocket,
 }
 
 impl UdpSocket {
     pub async fn open(bind_addr: SocketAddr) -> anyhow::Result<UdpSocket> {
-        let socket = tokio::net::UdpSocket::bind(bind_addr)
+        let socket = RawUdpSocket::bind(bind_addr)
             .await
             .with_context(|| format!("failed to bind to {bind_addr}/UDP for gossip"))?;
         Ok(UdpSocket {
